@@ -56,7 +56,9 @@ Lemma quoted_table : forall b, b < 256 -> enc_ok true quoted_from_octet b = true
 Proof. apply forall_octets. vm_compute. reflexivity. Qed.
 
 (* Symbol::from_octet (display_unquoted) is NOT safe for unquoted tokens:
-   parentheses are written verbatim *)
+   parentheses are written verbatim.  Its callers in the record writer (the values of
+   unknown SVCB parameters and of dohpath) escape the parentheses themselves (T1:
+   svcb_values_escaped_with_parens). *)
 Lemma from_octet_table_refuted : exists b, b < 256 /\ enc_ok false from_octet b = false.
 Proof. exists 40. split; [lia | vm_compute; reflexivity]. Qed.
 
@@ -421,6 +423,7 @@ Proof.
   - cbn [flat_map app name_syms]. change (wire_len []) with 0 in Hw.
     assert (Lc : 1 <= len cur). { destruct Wc as [_ [L _]]. rewrite rev_length in L. unfold len. lia. }
     destruct (w + 1 + len cur =? 1) eqn:E1; [lia|].
+    destruct (len cur =? 0) eqn:E0; [lia|].
     destruct (name_write_max <? w + 1 + len cur) eqn:E2; [lia|].
     cbn [name_syms N.eqb]. destruct (w + 1 + len cur =? 0) eqn:E3; [lia|].
     reflexivity.
@@ -428,6 +431,7 @@ Proof.
     assert (Lc : 1 <= len cur). { destruct Wc as [_ [L _]]. rewrite rev_length in L. unfold len. lia. }
     cbn [wire_len] in Hw.
     destruct (w + 1 + len cur =? 1) eqn:E1; [lia|].
+    destruct (len cur =? 0) eqn:E0; [lia|].
     destruct (name_write_max <? w + 1 + len cur) eqn:E2; [lia|].
     destruct Wx as [Wxb [Lx1 Lx2]].
     rewrite name_syms_label by (try exact Wxb; unfold len, label_latest; lia).
